@@ -873,6 +873,22 @@ func (fc *FnCtx) evalCall(x *ast.CallExpr, env *Env) Val {
 		return boolV(fc.specEq(arg(0), Val{K: KInt, S: "0", T: types.Typ[types.UntypedNil]}))
 	case "tagof":
 		return intV(arg(0).Tag, nil)
+	case "typetag", "ptrof":
+		// typetag("*[]byte"): the dynamic-type tag of that Go type;
+		// ptrof(x, "*[]byte"): the pointer held by interface value x, read as that pointer type
+		lit, ok := x.Args[len(x.Args)-1].(*ast.BasicLit)
+		if !ok || fc.pkg == nil {
+			panic(specErr(fn.Name + ": the type must be a string literal"))
+		}
+		ts, _ := strconv.Unquote(lit.Value)
+		tv, err := types.Eval(fc.eng.fset, fc.pkg.Types, token.NoPos, ts)
+		if err != nil {
+			panic(specErr(fn.Name + ": " + err.Error()))
+		}
+		if fn.Name == "typetag" {
+			return intV(fc.typeTag(tv.Type), nil)
+		}
+		return fc.vc.ptrFromRef(arg(0).S, tv.Type)
 	case "unbox":
 		// the value that was converted to the interface value given (known when the
 		// conversion happened in the function under verification)
